@@ -2,6 +2,7 @@
 from dataclasses import dataclass, field
 
 from sim.pool.base import StableHashMeta
+from sim.sched import cooperative_yield
 from typing import Optional
 
 from sim.pool.m_xsi import Animal
@@ -9,13 +10,19 @@ from sim.pool.m_xsi import Animal
 __NAMESPACE__ = "urn:late1"
 
 
-@dataclass
+# `@dataclass class Bird(Animal)` is two steps for the interpreter: the class statement creates Bird (from then
+# on Animal.__subclasses__() lists it, and dataclasses.is_dataclass(Bird) is already true through inheritance),
+# then the decorator processes its own fields. Another thread may run between the two; the harness marks the spot.
 class Bird(Animal):
     class Meta:
         name = "bird"
         namespace = "urn:late1"
 
     wingspan: Optional[float] = field(default=None, metadata={"type": "Element", "namespace": "urn:late1"})
+
+
+cooperative_yield("import:m_late1.Bird")
+Bird = dataclass(Bird)
 
 
 @dataclass
